@@ -602,7 +602,9 @@ impl Xot {
         if !self.is_element(node) {
             return Err(Error::NotElement(node));
         };
-        let mut fullname_serializer = FullnameSerializer::new(self, vec![]);
+        // the xml prefix is always bound and never needs a declaration
+        let mut fullname_serializer =
+            FullnameSerializer::new(self, self.base_prefixes().into_iter().collect());
         let mut missing_namespace_ids = HashSet::default();
         for edge in self.traverse(node) {
             match edge {
